@@ -174,13 +174,27 @@ def save {α : Type} (Q : Quant α) (s : DocState) (c : Composite α) : Except E
       .ok { s with imageData := setData s.imageData.comp planes s.info.header,
                    info := { s.info with versionInfo := s.info.versionInfo.map fun _ => true } }
 
+/-- The planes `save()` computes for a document whose structure was edited (`none`: mode / depth
+not supported). A function of the composite handed in *at this save* and of the merged image
+that is there (for the planes that are kept). -/
+def regenerate {α : Type} (Q : Quant α) (s : DocState) (c : Composite α) :
+    Except Err (Option (List (List UInt8))) :=
+  let old := getData s.imageData s.info.header
+  match mergedRoutes s.info (match old with | .ok _ => true | .error _ => false) with
+  | .error e => .error e
+  | .ok none => .ok none
+  | .ok (some routes) =>
+    match traverse (realise Q s.info.header.depth c (match old with | .ok ps => ps | .error _ => [])) routes with
+    | .error e => .error e
+    | .ok planes => .ok (some planes)
+
 /-! ### what the code counts as an edit of the structure
 
 `_updated_layers` is set by `GroupMixin._update_psd_record`, which the list-like mutators of
 a group / document call (`__setitem__`, `__delitem__`, `append`, `extend`, `insert`,
 `remove`, `pop`, `clear`) and, through them, `delete_layer`, `move_to_group`, `move_up`,
 `move_down`, `Group.group_layers`, `Group.new(parent=…)`. Attribute edits and read-only
-operations do not touch it, and nothing resets it. -/
+operations do not touch it, and nothing resets it — in particular not `save()` (`readSave`). -/
 
 inductive Op where
   | setitem | delitem | append | extend | insert | remove | pop | clear
@@ -213,5 +227,27 @@ def Op.all : List Op :=
 
 /-- the flag after a history, starting from `d` -/
 def dirtyAfter (d : Bool) (ops : List Op) : Bool := d || ops.any Op.structural
+
+/-! ### histories with several saves
+
+`save()` does not reset `_updated_layers`: a document whose structure was edited once
+regenerates its merged image on EVERY later save, from the layers as they are then (so
+attribute edits made between two saves reach the second file). A history is a list of
+events; a save carries what the numeric composite returns for the layers at that moment. -/
+
+inductive Event (α : Type) where
+  | op (o : Op)
+  | save (c : Composite α)
+
+def step {α : Type} (Q : Quant α) (s : DocState) : Event α → Except Err DocState
+  | .op o => .ok { s with dirty := s.dirty || o.structural }
+  | .save c => save Q s c
+
+def runEvents {α : Type} (Q : Quant α) : DocState → List (Event α) → Except Err DocState
+  | s, [] => .ok s
+  | s, e :: es =>
+    match step Q s e with
+    | .error err => .error err
+    | .ok s' => runEvents Q s' es
 
 end PsdVerif.Merged
